@@ -163,3 +163,75 @@ pub unsafe extern "C" fn sendmsg(fd: libc::c_int, msg: *const libc::msghdr, flag
         }
     }
 }
+
+// ---------------------------------------------------------------- ioctl / open interposition (family "kern")
+pub struct IoctlRec {
+    pub req: u64,
+    pub arg: Vec<u8>,
+}
+static KERN: Mutex<Option<(Vec<i32>, Vec<IoctlRec>)>> = Mutex::new(None);
+
+/// start capturing: `open64` of /dev/vhost-* returns a memfd, ioctls on such descriptors are recorded and answered
+pub fn kern_begin() {
+    *KERN.lock().unwrap() = Some((vec![], vec![]));
+}
+pub fn kern_add_fd(fd: i32) {
+    if let Some((fds, _)) = KERN.lock().unwrap().as_mut() {
+        fds.push(fd);
+    }
+}
+pub fn kern_end() -> Vec<IoctlRec> {
+    KERN.lock().unwrap().take().map(|x| x.1).unwrap_or_default()
+}
+
+#[no_mangle]
+pub unsafe extern "C" fn open64(path: *const libc::c_char, flags: libc::c_int, mode: libc::mode_t) -> libc::c_int {
+    let p = std::ffi::CStr::from_ptr(path).to_bytes();
+    if p.starts_with(b"/dev/vhost") {
+        let mut g = KERN.lock().unwrap();
+        if let Some((fds, _)) = g.as_mut() {
+            let fd = libc::memfd_create(b"vv-kern\0".as_ptr() as *const libc::c_char, libc::MFD_CLOEXEC);
+            fds.push(fd);
+            return fd;
+        }
+    }
+    libc::syscall(libc::SYS_openat, libc::AT_FDCWD, path, flags | libc::O_LARGEFILE, mode as libc::c_uint) as libc::c_int
+}
+
+#[no_mangle]
+pub unsafe extern "C" fn ioctl(fd: libc::c_int, req: libc::c_ulong, arg: *mut libc::c_void) -> libc::c_int {
+    let ours = KERN.lock().unwrap().as_ref().map(|(fds, _)| fds.contains(&fd)).unwrap_or(false);
+    if !ours {
+        return libc::syscall(libc::SYS_ioctl, fd, req, arg) as libc::c_int;
+    }
+    let req = req as u64 & 0xffff_ffff;
+    let dir = (req >> 30) & 3;
+    let mut size = ((req >> 16) & 0x3fff) as usize;
+    let nr = req & 0xff;
+    let p = arg as *mut u8;
+    let mut bytes = vec![];
+    if !p.is_null() && size > 0 {
+        // structures ending in a flexible array: the header says how much follows
+        let head = std::slice::from_raw_parts(p, size);
+        if nr == 0x03 && size == 8 {
+            let n = u32::from_le_bytes([head[0], head[1], head[2], head[3]]) as usize;
+            size += n.min(4096) * 32;
+        } else if (nr == 0x73 || nr == 0x74) && size == 8 {
+            let n = u32::from_le_bytes([head[4], head[5], head[6], head[7]]) as usize;
+            size += n.min(65536);
+        }
+        bytes = std::slice::from_raw_parts(p, size).to_vec();
+        // what "the kernel" writes back: a recognisable pattern
+        if dir & 2 != 0 {
+            let out = std::slice::from_raw_parts_mut(p, size);
+            let keep = if dir == 3 { 4 } else if nr == 0x73 { 8 } else { 0 };
+            for (i, b) in out.iter_mut().enumerate().skip(keep) {
+                *b = 0xa0u8.wrapping_add(i as u8).wrapping_add(nr as u8);
+            }
+        }
+    }
+    if let Some((_, recs)) = KERN.lock().unwrap().as_mut() {
+        recs.push(IoctlRec { req, arg: bytes });
+    }
+    0
+}
